@@ -229,4 +229,4 @@ def print_all_children(ctx, rule):
                 ctx.check(not skips, rule, p.qualname, x.iter, loc(p, x),
                           "%s skips some children when printing (continue in the loop over children)" % p.short,
                           desc="%s prints every child" % p.short)
-    ctx.floor(rule, "child iterations in the printers", n, 3)
+    ctx.floor(rule, "child iterations in the printers", n, 2)
